@@ -111,6 +111,7 @@ enum TOp {
     DiscardFreelist,
     SetMinSeg(u32),
     IncDiscarded(u32),
+    Clear,
 }
 
 struct Hist {
@@ -120,7 +121,7 @@ struct Hist {
 }
 
 /// The recovery oracle on one crash image.
-fn recover<A: VArena>(out: &mut Out, cfg: &Cfg, img: &[u8], live: &[LiveR], what: &str, ctx: &J, flavour_label: &str) {
+fn recover<A: VArena>(out: &mut Out, cfg: &Cfg, img: &[u8], live: &[LiveR], what: &str, ctx: &J, flavour_label: &str, mark_by_interrupted_call: bool) -> bool {
     let path = format!("{}/crash-img.arena", tmp_dir());
     std::fs::write(&path, img).expect("write crash image");
     out.inc("c06_crash_points");
@@ -136,27 +137,27 @@ fn recover<A: VArena>(out: &mut Out, cfg: &Cfg, img: &[u8], live: &[LiveR], what
         Ok(a) => a,
         Err(e) => {
             out.viol("C06", "crash-image-does-not-open", detail(format!("map_mut on the crash image failed: {}", e)));
-            return;
+            return false;
         }
     };
     let a: &'static A = Box::leak(Box::new(a));
     let (d, cap, cur) = (a.data_offset(), a.capacity(), a.allocated());
     if cur < d || cur > cap {
         out.viol("C06", "cursor-out-of-range", detail(format!("allocated()={} outside [data_offset={}, capacity={}]", cur, d, cap)));
-        return;
+        return false;
     }
     for l in live {
         let m = &a.memory()[l.off as usize..(l.off + l.cap) as usize];
         if m != &pat(l.id, l.cap as usize)[..] {
             out.viol("C06", "live-bytes-lost", detail(format!("range #{} [{},+{}) that was live before the crash lost its bytes (cursor after reopen {})", l.id, l.off, l.cap, cur)));
-            return;
+            return false;
         }
     }
     // every range that was live must still be below the cursor (fresh space starts there) ...
     for l in live {
         if l.cap > 0 && (l.off + l.cap) as usize > cur {
             out.viol("C06", "live-range-above-cursor-after-crash", detail(format!("range #{} [{},+{}) that was live before the crash lies above the reopened cursor {}: the next fresh allocation hands it out again", l.id, l.off, l.cap, cur)));
-            return;
+            return false;
         }
     }
     out.inc("c06_images_reopened");
@@ -168,7 +169,7 @@ fn recover<A: VArena>(out: &mut Out, cfg: &Cfg, img: &[u8], live: &[LiveR], what
             for l in live {
                 if l.cap > 0 && no < l.off + l.cap && l.off < ns {
                     out.viol("C06", "live-range-on-free-list-after-crash", detail(format!("segment (node {}, data size {}) of the reopened free list intersects range #{} [{},+{}) that was live before the crash; free list of the image: {:?}", n.0, n.1, l.id, l.off, l.cap, snap.nodes)));
-                    return;
+                    return false;
                 }
             }
         }
@@ -235,20 +236,29 @@ fn recover<A: VArena>(out: &mut Out, cfg: &Cfg, img: &[u8], live: &[LiveR], what
     BUDGET.with(|b| b.set(-1));
     if let Err(p) = r {
         if p.downcast_ref::<Budget>().is_some() {
-            let sig = if removed_linked { format!("recovery-nontermination:removed-node-in-crash-image:{}", cfg.freelist.name()) } else { format!("recovery-nontermination:other:{}", cfg.freelist.name()) };
+            // The known finding is: the interrupted call itself (a slow-path allocation or discard_freelist) had marked
+            // a node as removed and not yet unlinked it.  A removed node that the interrupted call did not mark, or one
+            // left behind by any other kind of call, is a different failure.
+            let sig = if removed_linked && mark_by_interrupted_call {
+                format!("recovery-nontermination:removed-node-in-crash-image:{}", cfg.freelist.name())
+            } else if removed_linked {
+                format!("recovery-nontermination:removed-node-not-marked-by-the-interrupted-call:{}", cfg.freelist.name())
+            } else {
+                format!("recovery-nontermination:other:{}", cfg.freelist.name())
+            };
             out.viol("C06", &sig, detail(format!("a call on the reopened arena did not finish within {} atomic accesses (call #{} of the allocation storm); free list of the image: {:?}", budget, k, snap.nodes)));
         } else {
             let (loc, msg) = crate::seq::LAST_PANIC.with(|p| p.borrow().clone());
             out.viol("C06", "recovery-panic", detail(format!("panic on the reopened arena at {}: {}", loc, msg)));
         }
         let _ = flavour_label;
-        return;
+        return removed_linked;
     }
     for g in got.iter() {
         for l in live {
             if g.1 > 0 && g.0 < l.off + l.cap && l.off < g.0 + g.1 {
                 out.viol("C06", "live-range-handed-out-again", detail(format!("after reopen alloc_bytes returned [{},+{}) which intersects #{} [{},+{}) that was live before the crash", g.0, g.1, l.id, l.off, l.cap)));
-                return;
+                return removed_linked;
             }
         }
     }
@@ -261,6 +271,7 @@ fn recover<A: VArena>(out: &mut Out, cfg: &Cfg, img: &[u8], live: &[LiveR], what
     out.add("c06_recovery_allocations", got.len() as u64);
     // the leaked Box keeps the mapping; unmap by dropping it explicitly
     unsafe { drop(Box::from_raw(a as *const A as *mut A)) };
+    removed_linked
 }
 
 fn run_history<A: VArena>(out: &mut Out, seed: u64, index: u64, abort_point: Option<(usize, usize)>) {
@@ -306,7 +317,7 @@ fn run_history<A: VArena>(out: &mut Out, seed: u64, index: u64, abort_point: Opt
     }
     let n_ops = rng.range(4, 10);
     for opi in 0..n_ops as usize {
-        let op = match rng.below(14) {
+        let op = match rng.below(15) {
             0..=4 => TOp::AllocBytes(*rng.pick(&[8u32, 16, 24, 40, 9, 33, 64, 1, 100])),
             5 => TOp::AllocTyped(*rng.pick(&[8u8, 9, 6])),
             6..=8 if !h.live.is_empty() => TOp::DropLive(rng.usize(h.live.len())),
@@ -314,6 +325,7 @@ fn run_history<A: VArena>(out: &mut Out, seed: u64, index: u64, abort_point: Opt
             10 | 11 => TOp::AllocAligned(*rng.pick(&[8u8, 6, 2]), *rng.pick(&[0u32, 3, 8, 13, 24, 40, 100])),
             12 => TOp::SetMinSeg(*rng.pick(&[0u32, 1, 8, 20, 48])),
             13 => TOp::IncDiscarded(*rng.pick(&[0u32, 1, 7, 100])),
+            14 if opi >= 3 => TOp::Clear,
             _ => TOp::AllocBytes(24),
         };
         // the in-flight range is "don't care"
@@ -321,6 +333,10 @@ fn run_history<A: VArena>(out: &mut Out, seed: u64, index: u64, abort_point: Opt
         let mut dropping: Option<LiveR> = None;
         if let TOp::DropLive(i) = &op {
             dropping = Some(live_before.remove(*i));
+        }
+        if matches!(op, TOp::Clear) {
+            // clear() gives everything back: nothing is live any more once it has been called
+            live_before.clear();
         }
         SNAPS.with(|s| s.borrow_mut().clear());
         EVENT_NO.with(|e| e.set(0));
@@ -372,6 +388,9 @@ fn run_history<A: VArena>(out: &mut Out, seed: u64, index: u64, abort_point: Opt
             TOp::DiscardFreelist => {
                 let _ = a.discard_freelist();
             }
+            TOp::Clear => {
+                let _ = unsafe { a.clear() };
+            }
             TOp::SetMinSeg(v) => a.set_minimum_segment_size(*v),
             TOp::IncDiscarded(v) => a.increase_discarded(*v),
         }
@@ -389,14 +408,21 @@ fn run_history<A: VArena>(out: &mut Out, seed: u64, index: u64, abort_point: Opt
             "replay_args" => format!("crash --seed {} --only {} --flavour {:?}", seed, index, A::FLAVOUR));
         let total = snaps.len();
         if abort_point.is_none() {
+            let mut removed_before_call = false;
             for (k, (label, img)) in snaps.iter().enumerate() {
                 let what = format!("op#{} {} {}", opi, op_kind(&op), label);
-                recover::<A>(out, &cfg, img, &live_before, &what, &ctx, "same");
+                // k == 0 is the image before the call's first access: a removed node there was not marked by this call
+                let marking_call = matches!(op, TOp::AllocBytes(_) | TOp::AllocTyped(_) | TOp::AllocAligned(..) | TOp::DiscardFreelist);
+                let by_call = k > 0 && marking_call && !removed_before_call;
+                let had = recover::<A>(out, &cfg, img, &live_before, &what, &ctx, "same", by_call);
+                if k == 0 {
+                    removed_before_call = had;
+                }
                 if k % 4 == 0 {
                     if A::FLAVOUR == Flavour::Sync {
-                        recover::<unsync::Arena>(out, &cfg, img, &live_before, &what, &ctx, "unsync");
+                        recover::<unsync::Arena>(out, &cfg, img, &live_before, &what, &ctx, "unsync", by_call);
                     } else {
-                        recover::<sync::Arena>(out, &cfg, img, &live_before, &what, &ctx, "sync");
+                        recover::<sync::Arena>(out, &cfg, img, &live_before, &what, &ctx, "sync", by_call);
                     }
                 }
                 let cls = format!("{}:{}", op_kind(&op), label.split(':').skip(1).collect::<Vec<_>>().join(":"));
@@ -415,7 +441,7 @@ fn run_history<A: VArena>(out: &mut Out, seed: u64, index: u64, abort_point: Opt
         if let Some(l) = new_live {
             h.live.push(l);
         }
-        if dropping.is_some() {
+        if dropping.is_some() || matches!(op, TOp::Clear) {
             h.live = live_before;
         }
         out.inc("c06_operations_swept");
@@ -435,6 +461,7 @@ fn op_kind(op: &TOp) -> &'static str {
         TOp::AllocAligned(..) => "alloc_aligned",
         TOp::DropLive(_) => "dealloc",
         TOp::DiscardFreelist => "discard_freelist",
+        TOp::Clear => "clear",
         TOp::SetMinSeg(_) => "set_minimum_segment_size",
         TOp::IncDiscarded(_) => "increase_discarded",
     }
